@@ -136,10 +136,10 @@ def check_c11(run):
 # The Fmm.tla campaigns (C01, C02, C06, C07, C08, C09, C10-inner, C12, C13, C16, C17, C18)
 # =====================================================================================================
 HIST = {"full": 0, "stages3": 1, "single6": 2, "nearfirst": 3, "farnear": 4, "p2ponly": 5, "uponly": 6, "m2lafterup": 7,
-        "rebuild": 8, "move1": 9, "move2": 10, "build": 99}
+        "rebuild": 8, "move1": 9, "move2": 10, "ptop": 11, "build": 99}
 FMM_INVS = ["NoAssertFail", "TreeOKWhenBuilt", "GeometricConsistency", "BatchWithinCapacity", "NothingAboveStopLevel",
             "MultipoleDef", "LocalDef", "RhsDef", "Completes", "ExactlyOnce", "ImagesOnceInner", "CountersEqualElementary",
-            "ElementarySetIndependentOfGrouping", "RebuildAddsOneInteraction", "RebuildResets", "Emit"]
+            "ElementarySetIndependentOfGrouping", "RebuildAddsOneInteraction", "RebuildResets", "ImagesExactlyOnce", "Emit"]
 NVARIANTS = 16
 # which mismatch kinds of the replay harness belong to which property
 KINDS = {
@@ -149,7 +149,7 @@ KINDS = {
     "C07": ["Groups", "GroupHeader", "LeafGroupsAligned", "Crash"],
     "C08": ["Elem", "Digest.mp", "Digest.lo", "Digest.rhs", "Crash"],
     "C09": ["Digest.mp", "Digest.lo", "Digest.rhs", "ExactlyOnce", "SourcesUntouched", "Elem", "Arg", "Groups", "Crash"],
-    "C10": ["Digest.mp", "Digest.lo", "Digest.rhs", "Elem", "Arg", "Crash"],
+    "C10": ["Digest.mp", "Digest.lo", "Digest.rhs", "Elem", "Arg", "IntervalMatchesApi", "WriteSets", "Crash"],
     "C12": ["WriteSets", "NothingAboveStopLevel", "Digest.mp", "Digest.lo", "Digest.rhs", "Crash"],
     "C13": ["RebuildPreserves", "Groups", "GroupHeader", "LeafGroupsAligned", "StoredOnce", "InRightLeaf", "DataBitExact", "ZeroInit",
             "Digest.mp", "Digest.lo", "Digest.rhs", "Crash"],
@@ -169,21 +169,22 @@ def fmm_record(r, pool, variant):
             for g in lvl:
                 v += [len(g)] + list(g)
     if "mpd" not in r:       # build-only scenarios of BlockTreeMC.tla carry no expansion state
-        v += [0] * (6 * r["height"] + 2 + 7 + 3)
+        v += [0] * (6 * r["height"] + 2 + 7 + 3) + [-1, -1, 1]
         return " ".join(map(str, v))
     for D in (r["mpd"], r["lod"]):
         for row in D:
             v += list(row)
     v += list(r["rhsd"]) + list(r["cnt"]) + [r["elem"], r["nelem"], 0 if r["bad"] == "" else 1]
+    v += [r.get("above", -1), r.get("ilo", -1), r.get("ihi", 1)]
     return " ".join(map(str, v))
 
 
 def fmm_constants(dim, height, pool, periodic=False, mode="single", maxper=1, maxparts=None, bss=(1, 2, 3, 20), gmodes=(False, True),
-                  stops=(2,), hists=("full",)):
+                  stops=(2,), hists=("full",), aboves=(-1,)):
     return dict(Dim=dim, Height=height, Periodic=periodic, Mode=mode, Pool=set(pool), MaxPerLeaf=maxper,
                 MaxParts=maxparts if maxparts is not None else len(pool) * maxper, BlockSizes=set(bss),
                 GroupModes="{" + ", ".join("TRUE" if g else "FALSE" for g in gmodes) + "}", StopLevels=set(stops),
-                Histories="{" + ", ".join('"%s"' % h for h in hists) + "}", EmitJson=True, Shard=0, NbShards=1)
+                Histories="{" + ", ".join('"%s"' % h for h in hists) + "}", AboveLevelsP1=set(a + 1 for a in aboves), EmitJson=True, Shard=0, NbShards=1)
 
 
 def tlc_sharded(module, consts, invs, props, nshards, workers_each, timeout, tag):
@@ -277,7 +278,10 @@ def scenario_key(r, line):
     k = "d%dh%d%s%s-S[%s]" % (r["dim"], r["height"], "p" if r["periodic"] else "", "-tsm" if r["mode"] == "tsm" else "", ",".join(map(str, r["sparts"])))
     if r["mode"] == "tsm":
         k += "-T[%s]" % ",".join(map(str, r["tparts"]))
-    return k + "-bs%d-og%d-st%d-hi%d-v%s" % (r["bs"], int(r["ogpp"]), r["stop"], HIST[r["hist"]], variant)
+    k += "-bs%d-og%d-st%d-hi%d" % (r["bs"], int(r["ogpp"]), r["stop"], HIST[r["hist"]])
+    if r["hist"] == "ptop":
+        k += "-ab%d" % r["above"]
+    return k + "-v%s" % variant
 
 
 POOL_1D_H5 = [0, 1, 2, 5, 6, 7, 8, 11, 14, 15]          # 10 of the 16 leaves of the 1-D height-5 tree
@@ -659,6 +663,52 @@ def check_c03(run):
                             "Covered => NoRace over all interleavings) and TLC's schedules are replayed through the mock runtime; an AddressSanitizer build repeats a subset")
     run.assumptions += FMM_ASSUME[:1] + ["the mock runtime implements the OpenMP dependence rules (its run orders are validated by TLC against TaskRuntime.tla); schedules are executed one task at a time, which is sound for result equality only together with NoRace/Covered on actual accesses",
                                          "GCC 12 defines _OPENMP=201511, so `commute` expands to inout; Specx and StarPU executors are not covered by this check (see DESIGN.md)"]
+
+
+@check("C09", "model_checking")
+def check_c09(run):
+    q = run.tier == "quick"
+    cs = [("tsm-1d-h5", fmm_constants(1, 5, POOL_1D_H5[:5 if q else 7], mode="tsm", bss=(1, 2, 3, 20), stops=(0, 2), hists=("full",))),
+          ("tsm-2d-h4", fmm_constants(2, 4, POOL_2D_H4[:4 if q else 5], mode="tsm", bss=(1, 2, 20), stops=(2,), hists=("full", "stages3"))),
+          ("tsm-3d-h3", fmm_constants(3, 3, POOL_3D_H3[:3 if q else 4], mode="tsm", bss=(1, 2), stops=(0, 2))),
+          ("tsm-1d-h4-multi", fmm_constants(1, 4, [0, 3, 4, 7] if q else [0, 1, 3, 4, 7], mode="tsm", maxper=2, maxparts=4 if q else 5, bss=(1, 2, 20)))]
+    if not q:
+        cs.append(("tsm-4d-h3", fmm_constants(4, 3, POOL_4D_H3[:3], mode="tsm", bss=(1, 2))))
+    run_fmm_configs(run, "C09", cs)
+    # the OpenMP target/source executor under the schedules of C03
+    pairs, mism, _ = omp_campaign(run, "C09-omp-tsm-1d-h5", fmm_constants(1, 5, POOL_1D_H5[:4 if q else 6], mode="tsm", bss=(1, 2, 20)), run.tier, graphs=0)
+    report_mismatches(run, "C09", "C09-omp-tsm-1d-h5", pairs, [(k, re.sub(r"-(immediate|deferred|tlc)-.*$", "", key), "%s [%s]" % (t, key)) for k, key, t in mism],
+                      ["SameAsSequential", "Covered", "Crash", "Arg", "KernelPerWorker", "WorkerKernelBound"])
+    run.coverage["rule"] = ("one case = one (source occupancy pattern, target occupancy pattern, block size, grouping mode, stop level, history): every pair of patterns of the pool "
+                            "(disjoint, overlapping, identical, single leaf or single particle on either side) explored by TLC on Fmm.tla in target/source mode (TsmExactlyOnce = ExactlyOnce with "
+                            "p ranging over targets and q over all sources, locals/multipoles by definition, sources own no result buffer) and replayed on TbfTreeTsm + TbfAlgorithmTsm, "
+                            "and on TbfOpenmpAlgorithmTsm under the mock-runtime schedules")
+    run.coverage["exhaustive"] = True
+    run.assumptions += FMM_ASSUME
+
+
+@check("C10", "model_checking")
+def check_c10(run):
+    q = run.tier == "quick"
+    ab1 = (-1, 0, 1, 2, 3) if q else (-1, 0, 1, 2, 3, 4, 5)
+    cs = [("per-1d-h3", fmm_constants(1, 3, range(4), periodic=True, maxparts=3, stops=(1,), bss=(1, 2, 20), hists=("ptop",), aboves=ab1)),
+          ("per-1d-h4", fmm_constants(1, 4, [0, 1, 4, 7], periodic=True, maxparts=3, stops=(1,), bss=(1, 2, 20), hists=("ptop",), aboves=ab1[:4])),
+          ("per-1d-h2", fmm_constants(1, 2, range(2), periodic=True, maxper=2, maxparts=3, stops=(1,), bss=(1, 2), hists=("ptop",), aboves=ab1)),
+          ("per-2d-h3", fmm_constants(2, 3, [0, 6, 9, 15], periodic=True, maxparts=2 if q else 3, stops=(1,), bss=(1, 2, 20), hists=("ptop",), aboves=(-1, 0, 1))),
+          ("per-2d-h2", fmm_constants(2, 2, range(4), periodic=True, maxparts=2, stops=(1,), bss=(1, 2, 20), hists=("ptop",), aboves=(-1, 0, 1) if q else (-1, 0, 1, 2))),
+          ("per-inner-1d-h4", fmm_constants(1, 4, range(8), periodic=True, maxparts=4, stops=(1,), bss=(1, 2, 3, 20), hists=("full",))),
+          ("per-tsm-1d-h3", fmm_constants(1, 3, range(4), periodic=True, mode="tsm", maxparts=2, stops=(1,), bss=(1, 2), hists=("ptop",), aboves=(-1, 0, 1, 2)))]
+    if not q:
+        cs.append(("per-3d-h2", fmm_constants(3, 2, [0, 3, 5, 7], periodic=True, maxparts=2, stops=(1,), bss=(1, 20), hists=("ptop",), aboves=(-1, 0))))
+        cs.append(("per-tsm-2d-h2", fmm_constants(2, 2, range(4), periodic=True, mode="tsm", maxparts=2, stops=(1,), bss=(1, 2), hists=("ptop",), aboves=(-1, 0, 1))))
+    run_fmm_configs(run, "C10", cs, cap=1024)
+    run.coverage["rule"] = ("one case = one (occupancy, block size, grouping mode, number of extra levels) of the documented periodic sequence (upward pass with working level 1, "
+                            "periodic top tree, transfer, downward pass) explored by TLC with image-carrying contributions: ImagesExactlyOnce requires exactly one contribution from "
+                            "every particle image of the repetition interval derived from the top tree's transfer windows (none from itself in the central box), GeometricConsistency "
+                            "holds modulo the box; the replay runs TbfAlgorithm + TbfAlgorithmPeriodicTopTree(/Tsm) with the bag kernel, compares the digests and checks that "
+                            "getRepetitionsIntervals / getNbRepetitionsPerDim report that interval")
+    run.coverage["exhaustive"] = True
+    run.assumptions += FMM_ASSUME + ["per-dimension (anisotropic) box widths are exercised by the replay variants; numerical kernels are out of scope (C04/C05)"]
 
 
 @check("C15", "exploration")
